@@ -1091,6 +1091,9 @@ int main(int argc, char **argv) {
         W w; w.obj();
         if (!jp.ok || cmd.t != J::OBJ) { w.kvs("err", "badjson"); }
 #ifdef CIFRUN_FAULT
+        // "if_fired": the repetition of a call whose injected failure did not fire (the call then simply succeeded, and
+        // applying it a second time is a different history) is skipped
+        else if (cmd.geti("if_fired", 0) && !fw_fired) { w.kvs("op", cmd.gets("op").c_str()); w.kv("skipped", 1); }
         else if (cmd.has("fail_at")) {
             // C17: count the allocations requested during this call and make the k-th one fail (k = 0: count only)
             fw_pending = (long) cmd.geti("fail_at", 0); fw_mask = (unsigned) cmd.geti("fail_kinds", 7); fw_used = false; fw_n = 0; fw_fired = 0;
